@@ -60,37 +60,102 @@ func runC14(p *Program, r *Result) {
 			}
 		}
 	}
-	_ = strings.TrimSpace
-	_ = ssa.Value(nil)
+	for i, e := range table {
+		if !used[i] {
+			r.cur = "R14.2"
+			r.Unk(e.Func, "stale-table-entry:"+e.Construct, "", "bounds_table.json lists a construct that no longer exists: the table must follow the code")
+		}
+	}
 }
 
 // checkRequires evaluates the prerequisites of a table entry. Supported:
-//   "fact:<function>|<callee>|<fact>"   the guard <fact> dominates the first call of <callee> in <function>
+//
+//	fact:<function>|<callee>|<fact>       the guard dominates the first call of callee in function
+//	storefact:<function>|<field>|<fact>   every store to the field in function is dominated by the guard
+//	retfact:<function>|<fact>             the success return of function is dominated by the guard
+//	asciiguard:<function>|<callee>        argument 0 of the first call of callee in function is ASCII-guarded
 func checkRequires(p *Program, r *Result, e boundsEntry) string {
-	for _, req := range e.Requires {
-		if !strings.HasPrefix(req, "fact:") {
-			return "unknown prerequisite syntax " + req
-		}
-		parts := strings.SplitN(strings.TrimPrefix(req, "fact:"), "|", 3)
-		if len(parts) != 3 {
-			return "bad prerequisite " + req
-		}
-		var fn *ssa.Function
+	findFn := func(name string) *ssa.Function {
 		for _, f := range p.Funcs {
-			if f.String() == parts[0] {
-				fn = f
+			if f.String() == name {
+				return f
 			}
 		}
+		return nil
+	}
+	for _, req := range e.Requires {
+		i := strings.Index(req, ":")
+		if i < 0 {
+			return "bad prerequisite " + req
+		}
+		kind, body := req[:i], req[i+1:]
+		parts := strings.Split(body, "|")
+		fn := findFn(parts[0])
 		if fn == nil {
 			return "function " + parts[0] + " not found"
 		}
-		c, err := nthCall(fn, parts[1])
-		if err != nil {
-			return err.Error()
-		}
-		tb := p.TB(c.Parent())
-		if _, ok := hasFactShort(tb.FactsAt(c.Block()), parts[2]); !ok {
-			return "guard `" + parts[2] + "` does not dominate " + parts[1] + " in " + parts[0]
+		tb := p.TB(fn)
+		switch kind {
+		case "fact":
+			if len(parts) != 3 {
+				return "bad prerequisite " + req
+			}
+			c, err := nthCall(fn, parts[1])
+			if err != nil {
+				return err.Error()
+			}
+			ctb := p.TB(c.Parent())
+			if _, ok := hasFactShort(ctb.FactsAt(c.Block()), parts[2]); !ok {
+				return "guard `" + parts[2] + "` does not dominate " + parts[1] + " in " + parts[0]
+			}
+		case "storefact":
+			if len(parts) != 3 {
+				return "bad prerequisite " + req
+			}
+			n := 0
+			for _, b := range fn.Blocks {
+				for _, in := range b.Instrs {
+					st, ok := in.(*ssa.Store)
+					if !ok {
+						continue
+					}
+					fa, ok := st.Addr.(*ssa.FieldAddr)
+					if !ok || fieldName(fa.X.Type(), fa.Field) != parts[1] {
+						continue
+					}
+					n++
+					if _, ok := hasFactShort(tb.FactsAt(b), parts[2]); !ok {
+						return "a store to " + parts[1] + " in " + parts[0] + " is not dominated by `" + parts[2] + "`"
+					}
+				}
+			}
+			if n == 0 {
+				return "no store to " + parts[1] + " in " + parts[0]
+			}
+		case "retfact":
+			if len(parts) != 2 {
+				return "bad prerequisite " + req
+			}
+			ret, err := successReturn(fn)
+			if err != nil {
+				return err.Error()
+			}
+			if _, ok := hasFactShort(tb.FactsAt(ret.Block()), parts[1]); !ok {
+				return "the success return of " + parts[0] + " is not dominated by `" + parts[1] + "`"
+			}
+		case "asciiguard":
+			if len(parts) != 2 {
+				return "bad prerequisite " + req
+			}
+			c, err := nthCall(fn, parts[1])
+			if err != nil {
+				return err.Error()
+			}
+			if p.asciiGuard(fn, c.Common().Args[0], c.(ssa.Instruction)) == nil {
+				return "the operand of " + parts[1] + " in " + parts[0] + " is not covered by an all-bytes ASCII guard"
+			}
+		default:
+			return "unknown prerequisite kind " + kind
 		}
 	}
 	return ""
